@@ -6,32 +6,44 @@ against the real parsers in sandboxed workers."""
 import os, re, itertools
 
 ID = 'C20'
-GENERATORS = ['gen_rip']
+GENERATORS = ['gen_rip', 'gen_ripline', 'gen_igs']
 COQ_TARGETS = ['Props/C20.vo', 'Run/RunC20.vo']
 PROPS_MODULE = 'Props.C20'
 THEOREMS = ['base36_total', 'base36_non_digit_is_error', 'parse_step_safe', 'tokenizer_safe', 'arity_bound', 'params_in_range', 'tok_resync',
-            'pstate_overflow_witness', 'row_loop_checked', 'row_guard_is_break', 'bar_rect_safe', 'put_pixel_safe', 'kernel_safe', 'kernel_seq_safe', 'rip_stream_safe']
+            'pstate_overflow_witness', 'row_loop_checked', 'row_guard_is_break', 'bar_rect_safe', 'put_pixel_safe', 'kernel_safe', 'kernel_seq_safe', 'rip_stream_safe',
+            # extension 1: line family
+            'line_canvas_generic', 'fill_x_generic', 'fill_y_generic', 'line_safe', 'rectangle_safe', 'draw_poly_safe', 'draw_poly_line_safe', 'line_cost',
+            'tokenizer_vec_range', 'kernel2_safe', 'kernel2_seq_safe', 'kernel2_modelled', 'rip_stream_safe2',
+            # extension 2 / 3: IGS tokenizer, IGS pixel kernel
+            'igs_tokenizer_safe', 'igs_next_action_safe', 'igs_stream_safe', 'igs_loop_step_safe', 'igs_loop_progress', 'igs_loop_step0_stuck', 'igs_executor_invariant',
+            'igs_set_pixel_safe', 'igs_get_pixel_safe', 'igs_fill_rect_safe', 'igs_fill_rect_cost', 'igs_picture_safe', 'igs_kernel_safe', 'igs_stream_kernel_safe',
+            'igs_draw_line_total', 'igs_draw_line_stall_witness', 'igs_kernel2_safe', 'igs_stream_kernel2_safe']
 SWEEP_LEMMAS = ['RipTokProofs.tables_ok (all 52 generated parse tables: every field index inside the struct, `_` arm is text or error, a continuing arm of a fixed-arity table has a successor, no empty fixed-arity table)',
                 'RipStreamProofs.kernel_weights_ok (no field of a kernel command is fed more than two base-36 digits)',
                 'RipTokProofs.lf_not_command (line feed is not a command letter in the three generated dispatch tables)',
+                'RipStream2Proofs.line_weights_ok (Line / Rectangle / polygon point count fields are fed two base-36 digits, LineStyle 2 + 4 + 2) and BgiLineProofs.line_patterns_shape / linestyle_from_range (5 line patterns, 16 pattern bits, LineStyle::from lands in 0..=4)',
+                'IgsKernelProofs.resolutions_ok / igs_patterns_shape / igs_pixels_ok (3 resolutions within 1..=1024, no empty fill pattern, 24 / 6 / 6 pattern tables, initial pixels below 16, 16-colour palettes) and the IgsTokProofs check that `&` is not a from_char letter',
                 'BgiProofs.fill_patterns_shape / ega_length / moduli / fillstyle_from_range / screen_size (generated constants: 13 patterns of 8 bytes, 64 EGA colours, colour moduli 16, FillStyle::from lands in 0..=12, window 640x350 <= 1024)']
 TRUSTED = ['Coq 8.16.1 kernel + vm_compute (table sweeps, model evaluation); no axioms (Print Assumptions: closed). Uint63 primitive integers are used ONLY by the canvas hash of Run/RunC20.v (stage C), in no theorem',
            'translator/gen_rip.py + vlib/rustsrc.py: dispatch tables, per-command parse tables, constants; token-for-token pins of parse_base_36 and the nine irregular parse functions',
-           'hand-written Model/RipTok.v, BgiKernel.v, RipStream.v, tied to the source by the differential runs of stage C (state + canvas hashes on streams of modelled commands)',
+           'hand-written Model/RipTok.v, BgiKernel.v, RipStream.v, BgiLine.v, RipStream2.v, IgsTok.v, IgsKernel.v, tied to the source by the differential runs of stage C (state + canvas hashes on streams of modelled commands; the line primitives called directly with arbitrary i32 arguments; IGS picture hashes, error and loop-step counts) and by translator/gen_ripline.py / gen_igs.py (constants, tables, sha-256 token pins of 31 hand-modelled function bodies)',
            'harness/src/c20.rs (stdout redirected while a case runs; icon files written to the temp dir), the worker limits (5 s / 1 GiB), the panic-location -> function map of props/c20.py']
-UNMODELLED = ['every BGI primitive beyond put_pixel / get_pixel / bar / bar_rect: line, rectangle, circle, ellipse, arcs, pie slices, bezier, polygons, flood fill, fonts and text output, buttons, mouse fields, icons, get/put image (search stage only)',
-              'Command::run of FontStyle, LineStyle, Mouse, Button, ButtonStyle, LoadIcon, FileQuery, GetImage, PutImage, CopyRegion and all drawing commands: reaching one is the explicit outcome OUnmodelled',
-              'the wrapped ansi::Parser (a parameter of the stream theorem: any behaviour), TerminalState::set_text_window (terminal margins)',
-              'all of IGS (parser, loops, DrawExecutor): search stage only',
-              'running time: no cost theorem; the search stage enforces 5 s per command under the worker']
+UNMODELLED = ['RIP primitives beyond put_pixel / get_pixel / bar / bar_rect / fill_x / fill_y / line / rectangle / draw_poly / draw_poly_line: circle, ellipse, arcs, pie slices, bezier, filled polygons, flood fill, fonts and text output, buttons, mouse fields, icons, get/put image (search stage only)',
+              'Command::run of FontStyle, Mouse, Button, ButtonStyle, LoadIcon, FileQuery, GetImage, PutImage, CopyRegion, Circle, Oval*, Arc*, PieSlice*, Bezier, FilledPolygon, Fill, Text, TextXY: reaching one is the explicit outcome OUnmodelled2',
+              'the wrapped ansi::Parser of both parsers (a parameter of the stream theorems: any behaviour), TerminalState::set_text_window (terminal margins), Buffer::clear_screen',
+              'IGS: every DrawExecutor command except ColorSet, FilledRectangle, AttributeForFills, ScreenClear, SetResolution, HollowSet, DrawingMode, SetPenColor, DrawLine, LineDrawTo, LineMarkerTypes (with the right parameter count they are the explicit outcome XUnmodelled; the tokenizer theorems hold for EVERY executor); the unchecked `x += p.len() as i32` of the loop parameter count (needs 2^31 parameters)',
+              'running time: cost theorems only for Bgi::line (put_pixel calls), IGS fill_rect (fill_pixel calls <= width x height), IGS draw_line (iterations between max(dx,dy)+1 and dx+dy+1: NOT bounded by the canvas) and IGS loops (steps <= |to - from| when step >= 1); otherwise the search stage enforces 5 s of CPU per command under the worker']
 ASSUMPTIONS = ['streams shorter than 2^31 characters: parameter_state (i32) overflows in the dev profile after 2^31-1 parameter characters of a single command (theorem pstate_overflow_witness); not reproducible under the 1 GiB worker limit',
                'buf.terminal_state.cleared_screen is never set by the engine (the only assignment in the crate is the reset inside rip print_char), so the graph_defaults prologue of print_char is not modelled',
-               'Rust i32 arithmetic panics on overflow (dev profile); `as u8` / `as usize` / `as u32` truncate or reinterpret as written in the model']
+               'Rust i32 arithmetic panics on overflow (dev profile); `as u8` / `as usize` / `as u32` truncate or reinterpret as written in the model',
+               'IGS: fewer than 2^31 loop parameters (the parameter-count fold `x += p.len() as i32` is modelled unbounded); the loop-step safety theorem assumes loop header and parameter values of at most 10^9 (beyond: known finding igs-panic:next_step)']
 RULE = ('search: every RIP command letter of the three dispatch tables (read from rip/mod.rs) x every parameter string over {0,1,Z} up to length 4 (quick) / 6 (thorough) and the uniform strings up to '
         'length 24, terminated by | and by newline, on a fresh parser and on two prelude states; non-base-36 characters in six positions of every command; ~280 hand-picked special streams '
         '(continuation lines, text variables, unknown commands, plain text, buttons, icons, images, fills); every IGS command letter (igs/cmd.rs) x 0..=12 parameters from '
         '{-50,-1,0,1,7,99,320,640,99999} (uniform + seeded mixed lists), loops, chained commands, ~170 special streams; seeded random sequences of 1..=20 commands on the state left by their predecessors. '
         'correspondence: seeded streams of 1..=20 modelled commands (truncated / over-long / non-digit / continuation-line parameters, line ends, lead-in variants). '
+        'extension: streams of Line / Rectangle / Polygon / PolyLine / LineStyle commands on a small viewport (ripobs2), Bgi::line / rectangle / draw_poly / draw_poly_line called directly with arbitrary i32 arguments (ripline), '
+        'IGS streams over the modelled executor arms with loops, wrong parameter counts, separators and junk (igsobs); search: + nine loop-arithmetic streams and ten loops of known length drained by igsdrain. '
         'non-trivial = stream longer than 3 characters answered without failure; distinct = distinct streams')
 
 # ---------------------------------------------------------------------------------------------------------------
@@ -303,6 +315,8 @@ def igs_special(table):
          'G#X 0,1,2,3:', 'G#X 99999:', 'G#X 7,0,1,2,3,4,5,6,7,8,9,10,11,12,13,14,15,16:', 'G#c 0,1:c 1,15:c 1,16:c 99999,99999:', 'G#d 1:d 99999:', 'G#i 0,1:i 1,99999:', 'G#l 0:l 1:l 2:l 3:l 4:l 99999:',
          'G#m 0,0:m 1,99999:m 2,5:m 3,5:m 4,5:', 'G#p 0,0:p 79,24:p 99999,99999:', 'G#r 0:r 1:r 2:', 'G#v 0:v 1:v 2:', 'G#w 0:w 1:w 2:', 'G#L 0,0,10,10:L_\n 10,10,20,\n20:', 'G#L 0,0,\n10,10:',
          'G#L 0 , 0 , 10 , 10 :', 'G#L>0,0,10,10:', 'G#L 0,0,10,10', 'G#L -1,-1,10,10:', 'G#L 0,,10:', 'G#L ,:', 'G#L:', 'G#:', 'G#L 2147483647,2147483648,99999999999,1:', 'G#W 2147483648,1,x@',
+         'G#L 0,0,1000000000,0:', 'G#&100,200,2147483647,0,L,4,0,0,1,1:', 'G#&1,3,1,0,L,4,+2147483647,0,0,0:', 'G#&1,3,1,0,L,4,--2147483648,0,0,0:', 'G#&1,3,1,0,L,4,!-2147483648,0,0,0:',
+         'G#&200,100,2147483647,0,L,4,0,0,1,1:', 'G#&0,2147483647,1,0,P,2,x,y:', 'G#&1,3,1,0,L,4,+2147483646,0,0,0:', 'G#&0,3,1,0,L,4,-2147483647,0,0,0:', 'G#&0,3,1,0,L,4,!2147483647,0,0,0:',
          'G#L 0,0,5,5:\nG#L 5,5,9,9:\n', 'G#L 0,0,5,5:L 5,5,9,9:', 'G#L 0,0,5,5:x', 'text G#L 0,0,5,5:text G', 'G#I 0:\rG#s 0:', 'GG#s 0:', 'G#G#s 0:']
     # a command or loop abandoned at every possible point, then (in the SAME stream, on the parser state the abandoned
     # one left behind) a well-formed loop and a well-formed command: stale tokenizer/loop state must not leak
@@ -436,6 +450,27 @@ def attribute(ctx, fails):
         if f['signature'].endswith(':?'): f['signature'] = f['signature'][:-1] + 'unattributed'
     fails[:] = [f for f in fails if not f.get('drop')]
 
+# loops whose length is known: (stream, number of executed steps the loop may take at most).  A loop still pending after
+# that many further get_next_action calls never ends (step 0): signature igs-loop-endless
+LOOP_BOUNDS = [('G#&0,3,1,0,L,4,0,0,1,1:', 3), ('G#&0,3000,1,0,C,2,2,3:', 3000), ('G#&0,3000,7,0,C,2,2,3:', 429), ('G#&3000,0,1,0,C,2,2,3:', 3000), ('G#&0,3,0,0,L,4,0,0,1,1:', 3),
+               ('G#&5,0,0,0,C,2,2,3:', 5), ('G#&0,0,0,0,C,2,2,3:', 0), ('G#&0,99999,99999,0,C,2,2,3:', 1), ('G#&0,3,2147483647,0,C,2,2,3:', 1), ('G#&7,7,0,0,C,2,2,3:', 0)]
+
+def loop_oracle(ctx):
+    cases = ['igsdrain %s %d' % (hx(s), n + 200) for s, n in LOOP_BOUNDS]
+    res = ctx.impl(cases, per_case_timeout=20, jobs=4)
+    fails = []
+    for (s, n), c, r in zip(LOOP_BOUNDS, cases, res):
+        if r[0] == 'ok':
+            steps, more, ended = r[1]
+            if not ended or steps + more + 1 > n + 1:
+                fails.append({'signature': 'igs-loop-endless', 'input': 'igs ' + hx(s), 'impl': r[1],
+                              'detail': '%r: the loop may run at most %d steps; after %d get_next_action calls it is %s' % (s, n, steps + more, 'finished' if ended else 'still pending')})
+        elif r[0] == 'panic':
+            fails.append({'signature': 'igs-panic:%s' % enclosing_fn(ctx.repo, r[1]), 'input': 'igs ' + hx(s), 'impl': list(r), 'detail': '%r panics at %s' % (s, r[1])})
+        else:
+            fails.append({'signature': 'igs-%s:&' % r[0], 'input': 'igs ' + hx(s), 'impl': list(r), 'detail': '%r: %s' % (s, r[1])})
+    return cases, fails
+
 # regression inputs of the defects repaired by fix: commits (must stay clean)
 REGRESSIONS = ['!|w000000000!', '!|w00000000 0|', '!|w1000000000|', '!|w0010000000|', '!|1B' + 'Z' * 37 + '|', '!|Q1S|', '!|QZZ|', '!|a051S|', '!|a0Z1R|']
 
@@ -475,6 +510,8 @@ def search(ctx, broken):
         if f: failures.append(f)
         elif len(s) > 3: nontriv.add(s)
     attribute(ctx, failures)
+    lcases, lfails = loop_oracle(ctx)
+    cases += lcases; failures += lfails
     failures.sort(key=lambda f: len(str(f['input'])))
     sig = {}
     for f in failures: sig[f['signature']] = sig.get(f['signature'], 0) + 1
@@ -538,6 +575,187 @@ DIRECTED_C = ['!|c0A|X0101|', '!|v05050A0A|B00000Z0Z|', '!|*|', '!|E|', '!|w0000
               '!|vHRHR0000|B0000ZZZZ|E|', '!|v0000ZZZZ|XHS00|XHR9P|XHS9P|', '!|v0005ZZ0A|S020F|E|', '!|m0509|g0A0B|', '!|w0A0A00001 |e|', '!|w050A0A0501|S010F|e|', '!|c0|', '!|X01|', '!|B0505|',
               '!|c0\\\n1|X0000|', '!|$A$|c01|', '!|1K|1E|1T0011001100|c02|', '!|#|c01|', '!|#x!|c01|', '!x!|c01|', '!|c01\n!|c02|', '!|v00000A0A|S020F|B00000A0A|W01|B00000A0A|']
 
+# ---- extension 1 (line family): streams with Line / Rectangle / Polygon / PolyLine / LineStyle on a small viewport, and the
+# primitives called directly with arbitrary i32 arguments
+SMALL_VP = ['|v00000K0F', '|v0502190K', '|v00000A0A', '|v0A000K0P', '|v0000140C', '|v03031E0K']
+LX = ['00', '00', '01', '03', '05', '08', '0A', '0F', '0K', '0P', '10', '1E', 'HR', 'ZZ']
+def gen_line_cmd(rng):
+    xy = lambda: rng.choice(LX) + rng.choice(LX)
+    c = rng.choice('LLLLRRPl==cWXBSm')
+    if c in 'LR': p = xy() + xy()
+    elif c in 'Pl':
+        k = rng.choice([0, 1, 2, 3, 3, 4, 5])
+        p = '0' + str(k) + ''.join(xy() for _ in range(k)) + rng.choice(['', '', '05', '0505', '050505'])
+        if rng.random() < 0.15: p = p[:rng.randrange(len(p) + 1)]
+    elif c == '=':
+        p = rng.choice(['00', '01', '02', '03', '04', '04', '05', '74', 'ZZ']) + rng.choice(['0000', '0001', 'FFFF', '5555', '0F0F', 'ZZZZ', '00ZZ', '1EKF']) + rng.choice(['01', '01', '01', '02', '03', '03', '05', '00', '08'])
+    elif c in 'cW': p = rng.choice(['00', '01', '02', '03', '04', '07', '0F', '0G'])
+    elif c in 'Xm': p = xy()
+    elif c == 'B': p = xy() + xy()
+    else: p = rng.choice(['00', '01', '02', '0B', '0C']) + rng.choice(['00', '01', '0F'])
+    m = rng.random()
+    if m < 0.08 and p: p = p[:rng.randrange(len(p))]
+    elif m < 0.14: p = p + ''.join(rng.choice(B36) for _ in range(rng.randint(1, 3)))
+    elif m < 0.18 and p: k = rng.randrange(len(p)); p = p[:k] + rng.choice(' !-,.;') + p[k+1:]
+    elif m < 0.22 and p: k = rng.randrange(len(p) + 1); p = p[:k] + rng.choice(['\\\n', '\\\r\n', '\r']) + p[k:]
+    term = '|' if rng.random() < 0.9 else rng.choice(['\n!', '\r\n!', '\n'])
+    return rip_cmd(0, c, p.replace('|', '0'), term)
+
+def gen_line_stream(rng):
+    cmds = [rng.choice(SMALL_VP)]
+    for _ in range(rng.choice([1, 2, 3, 5, 8, 12])): cmds.append(gen_line_cmd(rng))
+    s = '!' + ''.join(cmds)
+    if not s.endswith('\n') and rng.random() < 0.9: s += '|'
+    return s
+
+DIRECTED_L = ['!|L00000402|', '!|c0A|L00000A05|', '!|L0A050000|', '!|L000A0500|', '!|L05000500|', '!|L00050A05|', '!|L05050505|', '!|v00000K0F|L0000ZZZZ|', '!|v00000K0F|LZZZZ0000|', '!|v00000K0F|L00ZZZZ00|',
+              '!|v00000K0F|=010003|L00000K0F|', '!|v00000K0F|=045A5A02|R02020F0A|', '!|v00000K0F|=040000 1|L00000K0F|', '!|v05050K0F|=000005|R00000P0K|', '!|v00000K0F|=02000001|P03010105090905|',
+              '!|v00000K0F|l03010105050909|', '!|v00000K0F|P00|', '!|v00000K0F|l00|', '!|v00000K0F|P01|', '!|v00000K0F|P010505|', '!|v00000K0F|l020101|', '!|v00000K0F|=000003|*|', '!|=01000001|*|L00000A00|',
+              '!|v00000K0F|W01|L00000A0A|L00000A0A|', '!|v00000K0F|=0000ZZ|L05050A05|', '!|v00000K0F|=000000|L00000A05|', '!|v0000000F|L00000A05|', '!|vZZZZ0000|L00000A05|', '!|L0000ZZ01|', '!|L000001ZZ|']
+
+def gen_ripline_case(rng):
+    vp = rng.choice([(0, 0, 40, 30), (5, 2, 40, 30), (0, 0, 20, 15), (10, 10, 15, 15), (0, 0, 1295, 12), (3, 3, 6, 40), (0, 0, 0, 0), (600, 0, 700, 20), (30, 20, 40, 25)])
+    def coord(lo, hi):
+        r = rng.random()
+        if r < 0.70: return rng.randint(min(lo, hi), max(lo, hi))
+        if r < 0.82: return rng.randint(-20, 80)
+        if r < 0.93: return rng.choice([0, 1, 639, 640, 349, 350, 1295, 65535, -1, -300, -65535])
+        return rng.randint(-65535, 65535)
+    pt = lambda: [coord(vp[0], min(vp[2], vp[0] + 45)), coord(vp[1], min(vp[3], vp[1] + 30))]
+    style = rng.choice([0, 0, 0, 1, 2, 3, 4, 4, 7, 255, 260])
+    up = rng.choice([1, 0x5555, 0xF0F0, 0xFFFF, 1679615, 0x8001, -1, 70000, 0])
+    thick = rng.choice([1, 1, 1, 3, 3, 2, 0, 5, 9])
+    if vp[2] <= 40 and vp[3] <= 30 and rng.random() < 0.15: thick = rng.choice([40, 1295, 65535])
+    wm = rng.choice([0, 0, 0, 0, 1, 2, 3, 4])
+    kind = rng.choice([0, 0, 0, 1, 2, 3])
+    co = pt() + pt() if kind < 2 else sum([pt() for _ in range(rng.choice([0, 1, 2, 3, 4]))], [])
+    if kind == 0 and rng.random() < 0.15: co[2] = co[0]
+    if kind == 0 and rng.random() < 0.15: co[3] = co[1]
+    return list(vp) + [style, up, thick, wm, kind] + co
+
+DIRECTED_RL = [[0, 0, 40, 30, 0, 0, 1, 0, 0, 0, 0, 10, 5], [0, 0, 40, 30, 0, 0, 1, 0, 0, 10, 5, 0, 0], [0, 0, 40, 30, 0, 0, 1, 0, 0, 0, 5, 10, 0], [0, 0, 40, 30, 0, 0, 1, 0, 0, 3, 0, 0, 17],
+               [0, 0, 40, 30, 0, 0, 3, 0, 0, -65535, -65535, 65535, 65535], [0, 0, 40, 30, 1, 0, 1, 0, 0, 65535, 0, -65535, 1], [0, 0, 40, 30, 4, 0x5555, 2, 1, 0, 0, -65535, 1, 65535],
+               [5, 5, 20, 20, 2, 0, 5, 0, 1, 0, 0, 30, 30], [0, 0, 40, 30, 3, 0, 1, 0, 2, 1, 1, 20, 3, 9, 25], [0, 0, 40, 30, 0, 0, 1, 0, 3, 1, 1, 20, 3, 9, 25], [0, 0, 40, 30, 0, 0, 1, 0, 2], [0, 0, 40, 30, 0, 0, 1, 0, 3],
+               [0, 0, 40, 30, 0, 0, 65535, 0, 0, 5, 5, 9, 7], [0, 0, 40, 30, 0, 0, 0, 0, 0, 5, 5, 25, 7], [0, 0, 0, 0, 0, 0, 1, 0, 0, 0, 0, 5, 5], [30, 20, 10, 5, 0, 0, 1, 0, 0, 0, 0, 35, 25]]
+
+def zlit(v): return '(%d)' % v
+
+def correspondence_lines(ctx, rng):
+    """-> (cases, disagreements, nontrivial set, counters) for the line-family part of stage C"""
+    streams = [d.encode().decode('unicode_escape') for d in DIRECTED_L] + [gen_line_stream(rng) for _ in range(ctx.n(110, 1000))]
+    kc = DIRECTED_RL + [gen_ripline_case(rng) for _ in range(ctx.n(140, 1000))]
+    cases = ['ripobs2 ' + hx(s) for s in streams] + ['ripline ' + ' '.join(str(v) for v in c) for c in kc]
+    impl = ctx.impl(cases, per_case_timeout=10)
+    exprs = ['run_rip2 %s' % to_codes(s) for s in streams] + \
+            ['run_line %s [%s]' % (' '.join(zlit(v) for v in c[:9]), '; '.join(zlit(v) for v in c[9:])) for c in kc]
+    model = model_parallel(ctx, 'From IE Require Import Run.RunC20.\nLocal Open Scope Z_scope.', exprs)
+    dis = []; nontriv = set(); cnt = {'line_streams': len(streams), 'line_kernel_cases': len(kc), 'kernel_cases_drawing': 0, 'line_streams_unmodelled': 0}
+    for i, (c, r, m) in enumerate(zip(cases, impl, model)):
+        a = r[1] if (r is not None and r[0] == 'ok') else ([-1] if (r is not None and r[0] == 'panic') else None)
+        b = m
+        if b is not None and len(b) >= 1 and b[0] == -1: b = [-1]
+        if a != b or a is None:
+            dis.append({'case': c, 'stream': streams[i] if i < len(streams) else None, 'impl': r if r is None or r[0] != 'ok' else r[1], 'model': m})
+        else:
+            nontriv.add(c)
+            if i >= len(streams) and a != [-1] and a[2] > 0: cnt['kernel_cases_drawing'] += 1
+        if b == [-2]: cnt['line_streams_unmodelled'] += 1
+    return cases, dis, nontriv, cnt
+
+# ---- extension 2 / 3 (IGS tokenizer + pixel kernel): streams over the modelled executor arms C Z A s R, loops over them, every
+# letter with a wrong parameter count, text commands cut by a newline, separators / continuation / junk
+IGS_ARITY_HINT = {'I': 1, '?': 1, 'k': 1, 'C': 2, 'S': 4, 'L': 4, 'D': 2, 'B': 5, 'U': 5, 'H': 1, 'V': 5, 'O': 3, 'Q': 4, 'J': 6, 'q': 1, 'A': 3, 'Z': 4, 't': 1, 'P': 2, 'E': 3,
+                  'T': 3, 'M': 1, 'R': 2, 'F': 2, 'c': 2, 'p': 2}
+def gen_igs_model_cmd(rng):
+    sx = lambda: str(rng.choice([0, 1, 2, 3, 5, 8, 13, 20, 33, 47, 60]))
+    sy = lambda: str(rng.choice([0, 1, 2, 3, 4, 6, 9, 12]))
+    r = rng.random()
+    if r < 0.22:
+        big = rng.random() < 0.12
+        v = [sx(), sy(), sx(), sy()]
+        if big:      # a wide rectangle only one or two rows high, never a tall one: every pixel costs a pass over the canvas list in Coq
+            v[rng.choice([0, 2])] = rng.choice(['99999', '2147483647', '4000000000', '319', '320', '639'])
+            v[3] = str(min(12, int(v[1]) + rng.choice([0, 0, 1])))
+        elif rng.random() < 0.04:      # a tall rectangle two pixels wide
+            x0 = rng.choice([0, 318]); v = [str(x0), rng.choice(['0', '190']), str(x0 + 1), rng.choice(['199', '200', '99999'])]
+        c = 'Z' + rng.choice(['', ' ']) + ','.join(v)
+    elif r < 0.34: c = 'C' + rng.choice(['', ' ']) + rng.choice(['0', '1', '1', '2', '2', '2', '3', '4', '99']) + ',' + rng.choice(['0', '1', '2', '3', '7', '15', '16', '255'])
+    elif r < 0.48: c = 'A ' + rng.choice(['0', '1', '2', '2', '3', '3', '4', '5']) + ',' + rng.choice(['0', '1', '5', '6', '7', '12', '13', '24', '25', '99']) + ',' + rng.choice(['0', '1', '1', '2'])
+    elif r < 0.44: c = rng.choice(['L ' + ','.join([sx(), sy(), sx(), sy()]), 'L ' + ','.join([sx(), sy(), sx(), sy()]), 'D ' + sx() + ',' + sy(), 'D ' + sx() + ',' + sy(),
+                                   'T 2,' + rng.choice(['1', '2', '3', '4', '5', '6', '6', '0', '8']) + ',' + rng.choice(['1', '3']), 'T 1,' + rng.choice(['1', '6', '7', '0']) + ',1', 'T 3,1,1',
+                                   'L ' + sx() + ',' + sy() + ',' + rng.choice(['400', '1000', '99999']) + ',' + sy(), 'L 0,' + sy() + ',0,' + rng.choice(['250', '1000'])])
+    elif r < 0.50: c = 's' + rng.choice(['', ' 0', ' 5', ' 1,2'])
+    elif r < 0.52: c = rng.choice(['H ' + rng.choice(['0', '1', '2']), 'M ' + rng.choice(['0', '1', '3', '4', '5']),
+                                   'S ' + rng.choice(['0', '1', '2', '15', '16']) + ',' + ','.join(rng.choice(['0', '3', '7', '8', '255', '256']) for _ in range(3))])
+    elif r < 0.57: c = 'R ' + rng.choice(['0', '0', '1', '2', '3']) + ',' + rng.choice(['0', '1', '2', '3'])
+    elif r < 0.72:
+        # a letter with the wrong number of parameters: an error before anything happens
+        l = rng.choice(sorted(IGS_ARITY_HINT)); n = IGS_ARITY_HINT[l]
+        k = rng.choice([x for x in range(0, 8) if x != n])
+        c = l + ','.join(str(rng.choice([0, 1, 5, 50, 320])) for _ in range(k))
+    elif r < 0.78: return 'W ' + rng.choice(['1,2,abc', '10,10,Hello World', '1,2,', '1,2,a:b,c@d'][:3]) + '\nG#'
+    elif r < 0.94:
+        cmd = rng.choice('ZZZCCAs')
+        frm, to = rng.choice([(0, 3), (0, 6), (5, 0), (0, 0), (2, 9), (3, 4), (7, 2), (0, 12)])
+        step = rng.choice([1, 1, 1, 2, 3, 5])
+        if cmd == 'Z': par = [rng.choice(['x', 'y', '0', '5', '+2', '-3', '!7', '12', 'q', '', '+x', '-y', '007']) for _ in range(4)]
+        elif cmd == 'C': par = [rng.choice(['2', '0', '1', 'x']), rng.choice(['x', 'y', '3', '+1', '-15', '!16'])]
+        elif cmd == 'A': par = [rng.choice(['2', '3', 'x']), rng.choice(['x', 'y', '+1', '5']), rng.choice(['0', '1', 'x'])]
+        else: par = []
+        groups = rng.choice([1, 1, 1, 2])
+        npar = len(par) * groups
+        body = ':'.join(','.join(par) for _ in range(groups))
+        if rng.random() < 0.15: npar = rng.choice([0, 1, npar + 1, npar - 1 if npar else 0])
+        sep = rng.choice([',', ',', '@', '|'])
+        delay = rng.choice(['0', '0', '5', '99'])
+        return '&%d,%d,%d,%s,%s%s%d,%s:' % (frm, to, step, delay, cmd, sep, npar, body)
+    else: c = rng.choice(['L 0,0,5,5', 'P 3,3', 'B 0,0,9,9,1', 'F 1,1', 'X 0,1', 'g 1', 'n 1,2', '~0', '&', '&1,2', '&0,3,1,0,L', 'Z 1,2,3,4,'])
+    m = rng.random()
+    if m < 0.06: c = c.replace(',', ' , ', 1)
+    elif m < 0.10: c = c.replace(',', ',_\n', 1)
+    elif m < 0.14: c = c[:rng.randrange(1, len(c) + 1)] + rng.choice(['x', '-', '\n', '@', 'G#'])
+    term = ':' if rng.random() < 0.92 else rng.choice([':\nG#', ':\r\nG#', ':\n\nG#', ' :', '', ':G#'])
+    return c + term
+
+def gen_igs_model_stream(rng):
+    k = rng.choice([1, 2, 3, 5, 8, 12])
+    s = rng.choice(['G#', 'G#', 'G#', 'xG#', 'GG#', 'G\nG#', 'G#?', '']) + ''.join(gen_igs_model_cmd(rng) for _ in range(k))
+    if rng.random() < 0.1: s += rng.choice(['G', 'G#', 'text', 'G#Z 1,2'])
+    return s
+
+DIRECTED_I = ['G#C 1,3:L 0,0,4,2:', 'G#C 1,2:L 5,5,40,9:D 3,12:D 60,0:', 'G#T 2,3,1:C 1,5:L 0,0,60,12:', 'G#T 2,6,1:C 1,5:L 0,12,60,0:D 0,0:', 'G#T 2,7,1:L 0,0,5,5:', 'G#T 2,8,1:T 1,7,1:T 3,1,1:T 1,2,5:L 1,1,9,9:',
+              'G#L 0,0,99999,5:', 'G#L 99999,99999,0,0:', 'G#L 0,0,0,0:', 'G#D 5,5:D 5,5:', 'G#L 1,2,3:', 'G#&0,4,1,0,L,4,0,x,20,y:', 'G#C 1,4:&0,5,1,0,D,2,+3,x:', 'G#L 2147483647,0,0,0:', 'G#L 0,0,200000,1:T 2,2,1:',
+              'G#S 2,7,0,3:C 2,2:Z 0,0,10,5:', 'G#S 1,7,7,7:', 'G#S 16,1,1,1:', 'G#S 0,255,256,8:Z 0,0,3,3:', 'G#H 1:H 2:M 3:M 0:M 5:', 'G#C 2,3:Z 0,0,10,5:', 'G#&0,3,1,0,Z,4,x,0,x,5:', 'G#R 1,2:A 2,5,1:Z 3,3,40,9:', 'G#Z 0,0,99999,3:', 'G#Z 99999,99999,318,198:', 'G#Z 4000000000,0,5,5:', 'G#A 3,9,1:C 2,5:Z 1,1,33,9:',
+              'G#A 2,0,0:C 2,15:Z 0,0,47,12:', 'G#A 2,25,1:Z 0,0,5,5:', 'G#A 3,13,2:Z 0,0,5,5:', 'G#A 5,1,1:', 'G#C 2,16:Z 0,0,5,5:', 'G#C 4,1:', 'G#C 2:', 'G#s:Z 0,0,3,3:', 'G#R 1,0:Z 600,0,700,3:', 'G#R 0,3:', 'G#R 2,0:',
+              'G#R 1,1:R 0,0:Z 0,0,5,5:', 'G#W 1,2,abc\nG#C 2,3:Z 0,0,5,5:', 'G#&0,3,1,0,C,2,2,x:Z 0,0,9,2:', 'G#&5,0,2,0,Z,4,x,0,x,y:', 'G#&0,0,1,0,Z,4,0,0,1,1:', 'G#&0,3,1,0,~,4,0,0,1,1:', 'G#&0,3,1,0,Z,0,:',
+              'G#&0,6,1,0,Z,8,0,0,x,1:0,3,x,4:', 'G#&0,3,1,0,Z,4,q,0,1,1:', 'G#&0,3,1,0,Z,4,+x,-y,!2,y:', 'G#&0,3,1,5,Z,4,0,0,1,1:', 'G#&0,3,1,0,Z|4,0,0,1,1:', 'G#&0,3,1,0,Z,4,0,0,\n1,1:', 'G#&0,3,1,0,Z,x',
+              'G#&0,3,0,0,C,2,2,3:Z 0,0,2,2:', 'G#&100,200,2147483647,0,C,2,2,1:', 'G#&1,3,1,0,C,2,+2147483647,0:', 'G#&0,3,1,0,Z,4,0,0,1,1:&0,2,1,0,C,2,2,x:', 'G#L 1,2:', 'G#L:', 'G#?:', 'G#~:', 'G', 'G#', 'Gx', 'plain text',
+              'G#Z 0 , 0 , 5 , 5 :', 'G#Z>0,0,5,5:', 'G#Z 0,0,_\n5,5:', 'G#Z 0,0,5,5:\nG#C 2,4:Z 6,0,9,3:', 'G#Z 0,0,5,5:\n\nG#C 2,4:', 'G#Z 0,0,5,5:\rG#C 2,4:', 'G#Z 0,0,5,5:x', 'G#Z -1,0,5,5:', 'G#Z 0,,5:', 'G#Z ,:', 'G#:']
+
+def correspondence_igs(ctx, rng):
+    streams = [d.encode().decode('unicode_escape') for d in DIRECTED_I] + [gen_igs_model_stream(rng).encode().decode('unicode_escape') for _ in range(ctx.n(160, 1200))]
+    cases = ['igsobs ' + hx(s) for s in streams]
+    impl = ctx.impl(cases, per_case_timeout=10)
+    model = model_parallel(ctx, 'From IE Require Import Run.RunC20.\nLocal Open Scope Z_scope.', ['run_igs2 %s' % to_codes(s) for s in streams])
+    dis = []; nontriv = set(); cnt = {'igs_streams': len(streams), 'igs_unmodelled': 0, 'igs_with_loop_steps': 0, 'igs_with_errors': 0, 'igs_panic_both': 0}
+    for st, c, r, m in zip(streams, cases, impl, model):
+        a = r[1] if (r is not None and r[0] == 'ok') else ([-1] if (r is not None and r[0] == 'panic') else None)
+        b = m
+        if b is not None and len(b) >= 1 and b[0] == -1: b = [-1]
+        if b == [-2]:
+            cnt['igs_unmodelled'] += 1          # a command outside the kernel ran: nothing to compare (the generator keeps these rare)
+            if a is None: dis.append({'case': c, 'stream': st, 'impl': r, 'model': m})
+            continue
+        if a != b or a is None:
+            dis.append({'case': c, 'stream': st, 'impl': r if r is None or r[0] != 'ok' else r[1], 'model': m})
+        else:
+            nontriv.add(st)
+            if a == [-1]: cnt['igs_panic_both'] += 1
+            else:
+                if a[1] > 0: cnt['igs_with_loop_steps'] += 1
+                if a[0] > 0: cnt['igs_with_errors'] += 1
+    return cases, dis, nontriv, cnt
+
 def model_parallel(ctx, imports, exprs, ways=16, timeout=900):
     """ctx.model caps its shard count at one per 50 expressions; a full-screen fill costs seconds in Coq, so the expressions are
     dealt round-robin to `ways` concurrent ctx.model calls (each on a shallow copy of ctx with its own case-file prefix)"""
@@ -581,8 +799,14 @@ def correspondence(ctx):
         n = st.count('|'); lens[n] = lens.get(n, 0) + 1
     dist['commands_per_stream'] = {str(k): v for k, v in sorted(lens.items())}
     dist['model_errors'] = getattr(ctx, 'model_errors', [])[:2]
-    return {'cases': len(cases), 'disagreements': dis, 'distinct_nontrivial': len(nontriv), 'distribution': dist,
-            'samples': [cases[0], cases[len(DIRECTED_C) + 1], cases[-1]]}
+    lcases, ldis, lnon, lcnt = correspondence_lines(ctx, rng)
+    dist.update(lcnt)
+    dist['model_errors'] += getattr(ctx, 'model_errors', [])[:2]
+    icases, idis, inon, icnt = correspondence_igs(ctx, rng)
+    dist.update(icnt)
+    dist['model_errors'] += getattr(ctx, 'model_errors', [])[:2]
+    return {'cases': len(cases) + len(lcases) + len(icases), 'disagreements': dis + ldis + idis, 'distinct_nontrivial': len(nontriv) + len(lnon) + len(inon), 'distribution': dist,
+            'samples': [cases[0], cases[len(DIRECTED_C) + 1], cases[-1], lcases[0], lcases[-1], icases[1], icases[-1]]}
 
 def replay(ctx, body):
     from vlib import driver
@@ -599,6 +823,18 @@ def replay(ctx, body):
         m = ctx.model('From IE Require Import Run.RunC20.\nLocal Open Scope Z_scope.', ['run_rip %s' % to_codes(stream)], timeout=300)[0]
         print('implementation state (ripobs):', o)
         print('model (run_rip; [-2] = reaches a command outside the modelled kernel, [-1; site] = model panic):', m)
+    if lang == 'igs':
+        o = ctx.impl(['igsobs ' + hx(stream)], per_case_timeout=10)[0]
+        m = ctx.model('From IE Require Import Run.RunC20.\nLocal Open Scope Z_scope.', ['run_igs2 %s' % to_codes(stream)], timeout=300)[0]
+        print('implementation (igsobs):', o)
+        print('model (run_igs2; [-2] = a command outside the modelled executor ran, [-1; site] = model panic, site 32 = Loop::next_step arithmetic):', m)
+        bounds = dict(LOOP_BOUNDS)
+        if stream in bounds:
+            d = ctx.impl(['igsdrain %s %d' % (hx(stream), bounds[stream] + 200)], per_case_timeout=20)[0]
+            print('loop drain (steps during the stream, further steps, ended):', d)
+            if d[0] == 'ok' and (not d[1][2] or d[1][0] + d[1][1] > bounds[stream]):
+                print('oracle: FAIL igs-loop-endless: the loop may run at most %d steps' % bounds[stream])
+                return 1
     f = classify(ctx, lang, [], stream, r)
     if f:
         attribute(ctx, [f])
@@ -607,15 +843,21 @@ def replay(ctx, body):
     print('oracle: ok')
     return 0
 
-LEVEL_TEXT = ('PARTIAL by design. Machine-checked proof (Coq, closed under the global context) for the RIPscrip tokenizer and a BGI kernel: (a) model of rip::Parser::print_char '
-              '(all six states, !| lead-in, levels 0/1/9, continuation lines, text variables) and of Command::parse of all 52 commands, whose dispatch and parse tables are re-extracted from '
-              'rip/mod.rs and commands.rs on every run; theorems: no character of any stream reaches a panic site of the tokenizer (unwrap of the command, pop().unwrap(), i32 arithmetic), the parameter '
-              'index stays below the arity, every field stays below 36^(digits read), two line feeds always resynchronise; (b) model of put_pixel / bar / bar_rect / viewport / palette / fill state with checked '
-              'indexing and checked i32 arithmetic; theorem kernel_safe: every modelled command (TextWindow, ViewPort, ResetWindows, EraseWindow, EraseView, GotoXY, Color, SetPalette, OnePalette, WriteMode, Move, '
-              'Pixel, Bar, FillStyle, FillPattern + 12 no-op commands) with ANY parameters in 0..=65535 on any state satisfying the invariant returns normally and keeps the canvas at width x height bytes; lifted by '
-              'induction to every command sequence and to every character stream of the whole parser, for every behaviour of the wrapped ansi parser. NOT proved: lines, ovals, polygons, flood fill, fonts, buttons, '
-              'icons, images and all of IGS — these are covered only by the search stage, which runs the complete RIP and IGS command tables (every letter x parameter lengths 0..=24 over {0,1,Z}; 0..=12 IGS values) '
-              'and random sequences against the real code under 5 s / 1 GiB limits; 17 defects found this way are fixed by fix: commits, 7 failure classes remain as known findings.')
+LEVEL_TEXT = ('PARTIAL by design. Machine-checked proof (Coq, closed under the global context) for the RIPscrip tokenizer, a BGI kernel with its line family, the IGS tokenizer and an IGS pixel kernel: '
+              '(a) model of rip::Parser::print_char (all six states, !| lead-in, levels 0/1/9, continuation lines, text variables) and of Command::parse of all 52 commands, dispatch and parse tables re-extracted from '
+              'rip/mod.rs and commands.rs on every run; theorems: no character of any stream reaches a panic site of the tokenizer, the parameter index stays below the arity, every field stays below 36^(digits read), '
+              'palette / polygon vectors hold numbers below 1296, two line feeds always resynchronise; (b) model of put_pixel / bar / bar_rect / viewport / palette / fill state and of the run-slice line family '
+              '(fill_x, fill_y, line, rectangle, draw_poly, draw_poly_line, line style / pattern / thickness) with checked indexing and checked i32 arithmetic; theorems kernel_safe / kernel2_safe: every modelled command '
+              '(TextWindow, ViewPort, ResetWindows, EraseWindow, EraseView, GotoXY, Color, SetPalette, OnePalette, WriteMode, Move, Pixel, Bar, FillStyle, FillPattern, Line, Rectangle, Polygon, PolyLine, LineStyle + 12 no-op commands) '
+              'with ANY parameters in 0..=65535 on any state satisfying the invariant returns normally and keeps the canvas at width x height bytes; Bgi::line is proved over an abstract canvas: every pixel is plotted through the checked '
+              'put_pixel AFTER clipping to the viewport and at most (3(|dx|+|dy|)+8)*thickness pixels are plotted; lifted by induction to every command sequence and to every character stream of the whole parser, for every behaviour '
+              'of the wrapped ansi parser; (c) character-level model of the IGS tokenizer (states, saturating decimal accumulation, & loops with their header, `:` chaining, `@` text, line continuation, Loop::next_step) with command execution '
+              'and the fallback parser as parameters; theorem igs_tokenizer_safe / igs_stream_safe: for every executor, every interleaving of characters and get_next_action calls, parsed_numbers[0..=4], the loop_parameters unwraps, '
+              '`% len`, the parameter index never fail and the loop delay sleep never sleeps; the ONLY panic class is the i32 arithmetic of Loop::next_step (known finding, witness theorems; proved absent for headers / values up to 10^9); '
+              'loops with step >= 1 end after at most |to-from| steps, step 0 never ends (known finding); (d) IGS set_pixel / get_pixel / fill_pixel / fill_rect and the executor arms ColorSet, FilledRectangle, AttributeForFills, '
+              'ScreenClear, SetResolution, HollowSet, DrawingMode, SetPenColor are safe for ALL parameter values, fill_rect does at most width x height pixel calls, get_picture_data indexes the pen table in range; igs_stream_kernel_safe joins (c) and (d); (e) IGS draw_line (DrawLine, LineDrawTo, LineMarkerTypes) is an unclipped Bresenham: for ALL arguments it ends at the end point after at least max(|dx|,|dy|)+1 iterations — work proportional to the coordinates, the known stall igs-timeout:L — and panics only in the two known ways (LINE_STYLE[6], i32 overflow beyond +-2^27). '
+              'NOT proved: ovals, arcs, bezier, filled polygons, flood fill, fonts, buttons, icons, images and the other IGS drawing commands — covered only by the search stage, which runs the complete RIP and IGS command tables '
+              '(every letter x parameter lengths 0..=24 over {0,1,Z}; 0..=12 IGS values) and random sequences against the real code under 5 s / 1 GiB limits; 17 defects found this way are fixed by fix: commits, 10 failure classes remain as known findings.')
 LEVEL_NOTE = ('Trusted: Coq kernel + vm_compute; the python translator (tables, constants, token pins); hand-written tokenizer / kernel models tied by differential runs (state and canvas hashes); '
-              'the harness and worker limits. Assumes streams shorter than 2^31 characters (parameter_state overflow witness is a theorem). No axioms.')
-TECHNIQUE = 'Coq proof: invariants by induction over character streams and command sequences, complete vm_compute sweeps of the regenerated command tables; exhaustive + random search of the full command tables in sandboxed workers'
+              'the harness and worker limits. Assumes streams shorter than 2^31 characters (parameter_state overflow witness is a theorem) and fewer than 2^31 IGS loop parameters. No axioms.')
+TECHNIQUE = 'Coq proof: invariants by induction over character streams, event sequences and command sequences, an abstract-canvas (parametric) proof of the run-slice line with a cost measure, complete vm_compute sweeps of the regenerated command tables; exhaustive + random search of the full command tables in sandboxed workers'
